@@ -28,6 +28,8 @@ func main() {
 		}
 	case "check":
 		os.Exit(cmdCheck(os.Args[2:]))
+	case "replay":
+		os.Exit(cmdReplay(os.Args[2:]))
 	default:
 		fmt.Println("unknown command")
 		os.Exit(2)
